@@ -1,6 +1,8 @@
 package main
 
 import (
+	"go/token"
+	"go/types"
 	"encoding/json"
 	"flag"
 	"fmt"
@@ -204,6 +206,7 @@ func runCheck(o *Options) int {
 	var layouts []layoutRef
 	examplePkg := map[string]*PkgInfo{}
 	involved := map[*PkgInfo]bool{}
+	var sharedPkgs []*PkgInfo
 	addFunc := func(pi *PkgInfo, name, label string) error {
 		fn, ok := pi.funcs[normName(name)]
 		if !ok {
@@ -271,6 +274,16 @@ func runCheck(o *Options) int {
 						if !ok {
 							return reportLoadFailure(o, fmt.Errorf("property %s: unknown layout %s", o.prop, it.Name), start)
 						}
+					case "nosharedwrites":
+						sharedPkgs = append(sharedPkgs, pi)
+						involved[pi] = true
+					case "typeinv":
+						ts, err := w.typeInvTargets(pi, it.Name)
+						if err != nil {
+							return reportLoadFailure(o, fmt.Errorf("property %s: %v", o.prop, err), start)
+						}
+						targets = append(targets, ts...)
+						involved[pi] = true
 					case "example":
 						for _, ex := range pi.contract.Examples {
 							if ex.Name == it.Name {
@@ -302,7 +315,11 @@ func runCheck(o *Options) int {
 
 	var results []*FuncResult
 	var jobs []*job
-	for _, t := range targets {
+	// Modular soundness per property: a callee's contract is only as good as the check of that callee, so every function
+	// whose (non-trusted) contract is applied at a call site of a target becomes a target of this property as well.
+	var closure []string
+	for i := 0; i < len(targets); i++ {
+		t := targets[i]
 		r := w.verifyFunc(t.pi, t.fn, t.fc, t.label)
 		results = append(results, r)
 		for _, ob := range r.Obls {
@@ -313,6 +330,60 @@ func runCheck(o *Options) int {
 		for _, u := range t.fc.Uses {
 			lemmaSet[u] = true
 		}
+		if o.funcs != "" {
+			continue
+		}
+		sort.Slice(r.Called, func(a, b int) bool { return r.Called[a].String() < r.Called[b].String() })
+		for _, cf := range r.Called {
+			k := cf.String() + "[]"
+			if seenT[k] || cf.Blocks == nil {
+				continue
+			}
+			cpi, mine := w.pkgs[pkgPath(cf)]
+			cfc := w.contractFor(cf)
+			if !mine || cfc == nil || cfc.Trusted {
+				continue
+			}
+			seenT[k] = true
+			targets = append(targets, target{cpi, cf, cfc, ""})
+			involved[cpi] = true
+			closure = append(closure, cf.RelString(nil))
+		}
+	}
+	sort.Strings(closure)
+	w.closure = closure
+	// exported entry points of the packages this property touches that no contract of this run speaks for
+	{
+		covered := map[*ssa.Function]bool{}
+		for _, t := range targets {
+			covered[t.fn] = true
+		}
+		inl := map[string]bool{}
+		for _, r := range results {
+			for _, n := range r.Inlined {
+				inl[n] = true
+			}
+		}
+		var un []string
+		for pi := range involved {
+			for _, fn := range pi.funcs {
+				if fn.Pkg == nil || fn.Pkg.Pkg != pi.types || fn.Synthetic != "" || fn.Blocks == nil || covered[fn] || inl[fn.String()] || !token.IsExported(fn.Name()) {
+					continue
+				}
+				if rv := fn.Signature.Recv(); rv != nil {
+					rt := rv.Type()
+					if p, ok := rt.(*types.Pointer); ok {
+						rt = p.Elem()
+					}
+					if nt, ok := rt.(*types.Named); ok && !nt.Obj().Exported() {
+						continue
+					}
+				}
+				un = append(un, fn.RelString(nil))
+			}
+		}
+		sort.Strings(un)
+		w.uncovered = un
 	}
 	// lemma closure: bodies, plus all auto lemmas of the involved packages
 	for _, lm := range w.lemmas {
@@ -375,6 +446,13 @@ func runCheck(o *Options) int {
 		}
 	}
 
+	for _, sp := range sharedPkgs {
+		r := w.verifyNoSharedWrites(sp)
+		results = append(results, r)
+		for _, ob := range r.Obls {
+			jobs = append(jobs, &job{o: ob, g: r.Gen, preset: true})
+		}
+	}
 	for _, lr := range layouts {
 		r := w.verifyLayout(lr.pi, lr.l)
 		results = append(results, r)
@@ -735,6 +813,8 @@ func report(o *Options, w *World, results []*FuncResult, jobs []*job, start time
 		"functions_under_contract": funcs, "inlined_callees": keys(inlined), "by_backend": bySolver, "by_kind": kinds,
 		"solver_s": round3(solverTime), "cover_checks": covers, "cover_vacuous": len(coverBad), "samples": samples,
 		"known_findings_hit": knownHits, "solver_timeout_s": o.timeout, "decided_in_second_pass": retried,
+		"callees_verified_by_closure": w.closure,
+		"exported_functions_not_under_contract": w.uncovered,
 	}
 	level := o.levelNote
 	if level == "" {
@@ -931,4 +1011,57 @@ func modelValues(o *Obligation) map[string]string {
 		return nil
 	}
 	return parseGetValue(o.Model[i+1:])
+}
+
+// typeInvTargets: the methods of the named type that have no contract of their own, each with the synthesized contract
+// "requires inv(receiver) / ensures inv(receiver) / modifies *". Methods are found in the package as it is now, so a
+// method added later is under the invariant without anybody listing it. A method with a value receiver is verified
+// against "modifies nothing" instead (it works on a copy).
+func (w *World) typeInvTargets(pi *PkgInfo, typ string) ([]target, error) {
+	var ti *TypeInv
+	for _, t := range pi.contract.TypeInvs {
+		if t.Type == typ {
+			ti = t
+		}
+	}
+	if ti == nil {
+		return nil, fmt.Errorf("unknown typeinv %s", typ)
+	}
+	var names []string
+	for n := range pi.funcs {
+		names = append(names, n)
+	}
+	sort.Strings(names)
+	var out []target
+	for _, n := range names {
+		fn := pi.funcs[n]
+		if fn.Synthetic != "" || fn.Blocks == nil || fn.Signature.Recv() == nil || len(fn.Params) == 0 {
+			continue
+		}
+		rt := fn.Signature.Recv().Type()
+		ptr := false
+		if p, ok := rt.(*types.Pointer); ok {
+			rt, ptr = p.Elem(), true
+		}
+		nt, ok := rt.(*types.Named)
+		if !ok || nt.Obj().Name() != typ || nt.Obj().Pkg() != pi.types {
+			continue
+		}
+		if w.contractFor(fn) != nil {
+			continue // its own contract speaks for it
+		}
+		fc := &FuncContract{Name: n, ModAny: true, HasMod: true, Line: ti.Line, Loops: map[int]*LoopContract{}}
+		if ptr {
+			e := &CLet{ti.Binder, &CIdent{fn.Params[0].Name()}, ti.E}
+			src := "typeinv " + typ + ": " + ti.Src
+			fc.Requires = []Clause{{Name: "typeinv", E: e, Src: src}}
+			fc.Ensures = []Clause{{Name: "typeinv", E: e, Src: src}}
+		} else {
+			// a copy of the object: it can reach the original's state only through the pointers it holds, so "writes
+			// nothing" is what keeps every object's invariant (FRAME obligations); anything else needs its own contract
+			fc.ModAny = false
+		}
+		out = append(out, target{pi, fn, fc, ""})
+	}
+	return out, nil
 }
